@@ -295,14 +295,22 @@ func concurrentSections(tier string) []section {
 	// a map WriteItem has three times the lock operations of a byte-array one
 	// (bucket lookup under a read lock, upgrade, the buffer's own lock): three
 	// calls cost up to 90 000 executions per scenario, so the quick tier stops at two
-	scs = append(scs, cwScenarios("map", 2, maxCalls-1+b2i(tier == "thorough"))...)
+	scs = append(scs, cwScenarios("map", 2, 2+b2i(tier == "thorough"))...)
+	nUnbounded := len(scs)
 	if tier == "thorough" {
-		scs = append(scs, cwScenarios("bytearrays", 3, 4)...)
+		// three writers: every interleaving with at most 2 preemptions (the
+		// unbounded space of three map writers is beyond 10^6 executions)
+		scs = append(scs, cwScenarios("bytearrays", 3, 3)...)
 		scs = append(scs, cwScenarios("map", 3, 3)...)
 	}
 	return []section{{name: "concurrent-writers", n: int64(len(scs)), run: func(j int64, r *kit.Result) {
 		s := scs[j]
-		res := sched.Explore(s.body(), s.check(), sched.Options{MaxPreemptions: -1, MaxExecutions: 200000})
+		o := sched.Options{MaxPreemptions: -1, MaxExecutions: 200000}
+		if int(j) >= nUnbounded {
+			o = sched.Options{MaxPreemptions: 2, MaxExecutions: 100000}
+			r.Count("concurrent_writer_scenarios_with_3_writers_preemption_bound_2", 1)
+		}
+		res := sched.Explore(s.body(), s.check(), o)
 		r.Evals += res.Executions
 		r.States += res.States
 		r.Transitions += res.Transitions
@@ -317,7 +325,9 @@ func concurrentSections(tier string) []section {
 			}
 			r.Outcomes["concurrent-writers:"+o] += n
 		}
-		r.Count("concurrent_writer_scenarios_explored_without_bound", 1)
+		if res.Unbounded {
+			r.Count("concurrent_writer_scenarios_explored_without_bound", 1)
+		}
 		r.Count("concurrent_writer_executions_pruned_by_hb_cache", res.Pruned)
 		for _, f := range res.Failures {
 			e1 := sched.Replay(s.body(), f.Choices, 0)
